@@ -1440,7 +1440,24 @@ impl TxDef {
 impl Analyzable for TxDef {
     fn analyze(&mut self, parent: Option<Rc<Scope>>) -> AnalyzeReport {
         // analyze static types before anything else
-        let params = self.parameters.analyze(parent.clone());
+        let mut params = self.parameters.analyze(parent.clone());
+
+        // parameters, parties and environment values are supplied through one argument
+        // map keyed by their lower-cased name, where two of them cannot coexist
+        let mut arg_names: std::collections::HashSet<String> = parent
+            .iter()
+            .flat_map(|p| p.symbols.iter())
+            .filter(|(_, symbol)| matches!(symbol, Symbol::EnvVar(..) | Symbol::PartyDef(_)))
+            .map(|(name, _)| name.to_lowercase())
+            .collect();
+
+        for param in self.parameters.parameters.iter() {
+            if !arg_names.insert(param.name.value.to_lowercase()) {
+                params
+                    .errors
+                    .push(Error::DuplicateDefinition(param.name.value.clone()));
+            }
+        }
 
         // create the new scope and populate its symbols
 
@@ -1568,6 +1585,22 @@ impl Analyzable for Program {
             }
         }
 
+        // environment values and parties share the argument map of every transaction,
+        // keyed by lower-cased name
+        let mut duplicates = AnalyzeReport::default();
+        let mut arg_names = std::collections::HashSet::new();
+
+        let env_names = self.env.iter().flat_map(|env| env.fields.iter().map(|f| &f.name));
+        let party_names = self.parties.iter().map(|party| &party.name.value);
+
+        for name in env_names.chain(party_names) {
+            if !arg_names.insert(name.to_lowercase()) {
+                duplicates
+                    .errors
+                    .push(Error::DuplicateDefinition(name.clone()));
+            }
+        }
+
         for party in self.parties.iter() {
             scope.track_party_def(party);
         }
@@ -1609,7 +1642,7 @@ impl Analyzable for Program {
 
         let txs = self.txs.analyze(self.scope.clone());
 
-        parties + policies + types + aliases + txs + assets
+        parties + policies + types + aliases + txs + assets + duplicates
     }
 
     fn is_resolved(&self) -> bool {
